@@ -277,7 +277,7 @@ impl Prop for C05 {
         "C05"
     }
     fn phases(&self, tier: Tier) -> Vec<PhaseSpec> {
-        vec![ph("built-in and named calendars", tier.pick(24, 160)), ph("random calendars and unions", tier.pick(24, 240))]
+        vec![ph("built-in and named calendars", tier.pick(24, 600)), ph("random calendars and unions", tier.pick(24, 1200))]
     }
     fn workers(&self, tier: Tier) -> usize {
         tier.pick(12, 16)
